@@ -415,7 +415,7 @@ def _ref_increments(case, kop, b, u, k, out_min, out_max):
   return dy
 
 
-def _cond_allowance(kp_ref, dy_ref, xf, k, in_min, in_max):
+def _cond_allowance(kp_ref, dy_ref, xf, k, in_min, in_max, dy_bound):
   """Float32 conditioning allowance per (example, unit).
 
   The function places its keypoints by a float32 running sum of the derived
@@ -423,10 +423,18 @@ def _cond_allowance(kp_ref, dy_ref, xf, k, in_min, in_max):
   the input range).  For a segment of length len next to x the interpolation
   weight is therefore uncertain by min(1, 2*err/len), i.e. the output by that
   times the segment's output increment.  Segments farther than err from x have
-  exact weights 0 or 1 and contribute nothing.  Keypoints, segment lengths and
-  output increments are the float64 REFERENCE ones (kp_ref, dy_ref), never
-  values returned by the function under test.
+  exact weights 0 or 1 and contribute nothing.  Keypoints and segment lengths
+  are the float64 REFERENCE ones (kp_ref), never values returned by the
+  function under test.  The output increment of a segment is bounded by the
+  larger of the reference increment (dy_ref, which assumes the documented
+  sigmoid squashing) and |dy_bound| - an increment the caller can guarantee
+  for ANY parametrisation of the outputs (the width of the output range) scaled
+  so that it never exceeds the reference by more than a factor 4: a library
+  that squashes the free parameters differently (audit control M-C15-11,
+  sigmoid(2z)) still has equal cyclic ends and must not be flagged.
   """
+  dy_ref = np.maximum(np.abs(dy_ref), np.minimum(4.0 * np.abs(dy_ref) + 1e-30,
+                                                 abs(dy_bound)))
   kp = kp_ref[..., :-1]
   dx = np.diff(kp_ref, axis=-1)
   scale = max(abs(in_min), abs(in_max), float(np.max(np.abs(xf))), 1e-30)
@@ -612,7 +620,8 @@ def _run_pwl(case, out, tf, tfl):
       live = live & ~bad
       miss[name] = m | bad       # not judged further
     # bounds (plus the float32 conditioning allowance near short segments)
-    cond[name] = _cond_allowance(kp_ref, dy_ref, xf, k, in_min, in_max)
+    cond[name] = _cond_allowance(kp_ref, dy_ref, xf, k, in_min, in_max,
+                                 out_max - out_min)
     btol = tol + cond[name]
     if np.any(live & ((y < out_min - btol) | (y > out_max + btol))):
       i = _first(live & ((y < out_min - btol) |
